@@ -1216,3 +1216,45 @@ def envelope(P, rep, extracted, syms, rule="EXPR.envelope"):
             rep.violation(rule, "%s boundary values: base(0) = %s, base(L) = %s, term(0) = %s, term(L) = %s" % (label, t0, tL, s0, sL), F.loc, F.qn, "",
                           "prescribed boundary temperatures are not attained", key="%s|%s|boundary" % (rule, label.replace(" ", "-")),
                           witness="query at depth 0 and at the model's max depth")
+
+
+# ------------------------------------------------------------------------------------------------
+def parameter_single_source(P, rep, rule="PARAM.source"):
+    """a model that keeps its own copy of a world constant reads the world's value only while parsing"""
+    rep.rule(rule, "a model class that has a field named like a physical constant of World (its own, possibly overridden, copy: thermal "
+                   "diffusivity, specific heat, ...) reads `world-><that constant>` only in parse_entries, where the copy is initialised; "
+                   "every function on the query path uses the copy - otherwise one formula mixes two values of the same parameter as soon "
+                   "as the model overrides it")
+    own = {}       # class qn -> {field name}
+    reads = {}     # class qn -> [(F, node, name)]
+    for F in P.funcs.values():
+        if F.body is None or "/source/world_builder/features/" not in F.file or "::" not in F.qn:
+            continue
+        cls = F.qn.rsplit("::", 1)[0]
+        for n in F.walk(F.body):
+            if n.get("k") != "MemberExpr":
+                continue
+            d = P.d(n.get("r"))
+            if d.get("k") != "Field":
+                continue
+            qn = d.get("qn") or ""
+            if qn.startswith("WorldBuilder::World::"):
+                reads.setdefault(cls, []).append((F, n, d.get("n")))
+            elif astq.is_this_field(P, n):
+                own.setdefault(cls, set()).add(d.get("n"))
+    n_cls = 0
+    for cls in sorted(own):
+        shadow = {nm for (_, _, nm) in reads.get(cls, [])} & own[cls]
+        if not shadow:
+            continue
+        n_cls += 1
+        bad = [(F, n, nm) for (F, n, nm) in reads[cls] if nm in shadow and F.name != "parse_entries"]
+        if bad:
+            F, n, nm = bad[0]
+            rep.violation(rule, "%s::%s reads world->%s although the model has its own %s" % (cls.replace("WorldBuilder::Features::", ""), F.name, nm, nm),
+                          F.nloc(n), F.qn, norm.render(P, astq.enclosing(F, n, ("VarDecl", "BinaryOperator")) or n)[:140],
+                          "with an overridden `%s` the formula mixes the model's and the world's value" % nm.replace("_", " "),
+                          key="%s|%s|%s" % (rule, cls, nm), witness="a model that sets its own '%s' different from the world's" % nm.replace("_", " "))
+        else:
+            rep.ok(rule, "%s: world's %s read while parsing only" % (cls.replace("WorldBuilder::Features::", ""), ", ".join(sorted(shadow))), "", cls)
+    rep.floor(rule, n_cls, 5, "model classes with their own copy of a world constant")
